@@ -167,11 +167,11 @@ let () =
          let tr = List.map (parse_event cfgs) toks in
          h_events := !h_events + List.length tr;
          let mux = fun _ -> true in
-         let (sts, complete) = http_accept validated_now mux fuel c0 tr in
+         let (sts, complete) = http_accept stop_locked_now validated_now mux fuel c0 tr in
          h_states := !h_states + List.length sts;
          if sts = [] then begin
            incr mism;
-           let d = int_of_nat (http_depth validated_now mux fuel c0 tr) in
+           let d = int_of_nat (http_depth stop_locked_now validated_now mux fuel c0 tr) in
            let next = try List.nth toks d with _ -> "?" in
            Printf.printf "MISMATCH hist %s depth=%d/%d next=%s\n" id d (List.length toks) next
          end else if not complete then begin
